@@ -10,7 +10,7 @@ func text_VerifAnalyse(s string) ([]string, error) { return text.VerifAnalyse("s
 func runC05(rc *runCtx) error {
 	n := rc.n
 	if n == 0 {
-		n = 80
+		n = 128
 		if rc.thorough() {
 			n = 2000
 		}
